@@ -39,7 +39,7 @@ BOUNDS = (
     "tamper = one byte changed anywhere, truncation or extension" % (_G, pick(3, 4))
 )
 OUTSIDE = (
-    "non-ASCII input (IDNA mapping, NFKC), IPv6 literals ('[' and ']' excluded), percent-decoding of hosts (a '%%' in the WHATWG host is treated as unsafe), "
+    "non-ASCII input (IDNA mapping, NFKC), IPv6 literals ('[' and ']' excluded), percent-escapes that decode to non-ASCII host labels, "
     "IPv4 number forms other than the literal 127.0.0.1, more than %d symbolic characters per URL, the middleware's full request flow, "
     "dot-segment normalisation and segment-boundary of the prefix match in _validate_original_url (same-origin either way)" % _G
 )
@@ -105,9 +105,13 @@ def _authority_host_port(rest):
         return FAIL
     if "[" in host or "]" in host:
         raise _sx.Unsupported("IPv6 literal reached the WHATWG reference")
-    for ch in host:  # host parser: forbidden domain code point => failure ('%' => treated as unsafe by the callers)
-        if not ch.strip(_FORBIDDEN_NOPCT):
-            return FAIL
+    # host parser: percent-decode, THEN look for forbidden domain code points.  Splitting into
+    # userinfo / host / port happened above on the raw string: to a browser a percent-encoded
+    # delimiter (%2F %5C %23 %3F %40 %3A) is data, never a delimiter.
+    host = _sx.sx_unquote(host)
+    for ch in host:
+        if not ch.strip(_FORBIDDEN_DOMAIN):
+            return FAIL  # includes a '%' that survives decoding and any decoded delimiter
     if port:
         if not port.isdigit():
             return FAIL  # port-invalid
@@ -179,6 +183,12 @@ _REF_TABLE = [
     ("//host/x", FAIL),
     ("example", FAIL),
     ("hello:world", ("other", "hello")),
+    ("http://l%6Fcalhost:3000/", ("http", "localhost", "3000")),  # the host is percent-decoded
+    ("http://a%2Fb/", FAIL),  # ... and a decoded '/' is a forbidden host code point
+    ("http://a%zzb/", FAIL),
+    ("https://app.example%2F@evil.example/cb", ("https", "evil.example", "")),  # %2F in userinfo is data
+    ("http://localhost%23@evil.example/", ("http", "evil.example", "")),
+    ("http://localhost%3A80%40evil.example/", FAIL),  # one host label containing ':' and '@' after decoding
 ]
 _REL_TABLE = [
     # §4.4: "\\example\\..\\demo/.\\" against https://example.com/ => https://example/demo/
@@ -316,10 +326,16 @@ def _pinned(name: str, s: str):
     return v
 
 
-def _validate_model(n: int, seed: int) -> list[str]:
+_UNSUPPORTED_SEEN: list[str] = []
+
+
+def _validate_model(n: int, seed: int, which: str = "both") -> list[str]:
+    """Differential run of the symbolic pipeline on pinned strings.  A run the model cannot execute
+    (Unsupported) is not a disagreement: it is remembered in _UNSUPPORTED_SEEN and makes the item
+    INCONCLUSIVE, not an ERROR of the property."""
     bad = _sx.selfcheck(200, seed)
     rnd = random.Random(seed)
-    alpha = "\\/@:#?.\t 8a%L\n;"
+    alpha = "\\/@:#?.\t 8a%L\n;2Ff"
     for k in range(n):
         g = ["".join(rnd.choice(alpha) for _ in range(rnd.randint(0, 2))) for _ in range(3)]
         scheme = rnd.choice(["http", "https", "HTTP", "ftp"])
@@ -339,10 +355,10 @@ def _validate_model(n: int, seed: int) -> list[str]:
 
         def body():
             su = scheme + "://" + _pinned("a", g[0]) + h1 + _pinned("b", g[1]) + h2 + _pinned("c", g[2]) + tail
-            r = _call_vrt(_vrt, su, _ALLOW_SCAN)
+            r = _call_vrt(_vrt, su, _ALLOW_SCAN) if which != "orig" else want[0]
             ref = whatwg_http_origin(su)
             srel = head + _pinned("d", g[0]) + _pinned("e", g[1]) + "evil.example/x"
-            r2 = _vou(srel, prefix)
+            r2 = _vou(srel, prefix) if which != "rt" else want_rel[0]
             got.append((_sx.evaluate(r), _sx.evaluate(ref), _sx.evaluate(r2), whatwg_relative_same_origin(srel)))
             return True, None
 
@@ -351,7 +367,7 @@ def _validate_model(n: int, seed: int) -> list[str]:
         if ex.unsupported:
             if "[" in url or "]" in url:
                 continue
-            bad.append(f"unsupported on concrete {url!r}: {ex.unsupported[0]}")
+            _UNSUPPORTED_SEEN.append(f"on concrete {url!r}: {ex.unsupported[0]}")
             continue
         if ex.paths != 1 or len(got) != 1:
             bad.append(f"{ex.paths} paths for pinned {url!r}")
@@ -416,13 +432,17 @@ def _finish(ex: _sx.Explorer, res: dict, roots_done: int, roots_total: int, repl
     return res
 
 
-def _preflight(seed_n: int = 120) -> dict | None:
+def _preflight(seed_n: int = 120, which: str = "rt") -> dict | None:
     bad = _check_reference()
     if bad:
         return {"verdict": "ERROR", "detail": "WHATWG reference disagrees with the standard's table: " + "; ".join(bad[:4])}
-    bad = _validate_model(seed_n, 0)
+    del _UNSUPPORTED_SEEN[:]
+    bad = _validate_model(seed_n, 0, which)
     if bad:
         return {"verdict": "ERROR", "detail": "sx string model disagrees with real str / real functions: " + "; ".join(bad[:4])}
+    if len(_UNSUPPORTED_SEEN) > seed_n // 2:
+        # the function under analysis does something the string model cannot execute at all
+        return {"verdict": "INCONCLUSIVE", "detail": "string model does not cover the code under analysis: " + _UNSUPPORTED_SEEN[0], "queries": 0, "discharged": 0}
     return None
 
 
@@ -524,6 +544,81 @@ def return_to_host_confusion_deep_http(budget: float, replay=None) -> dict:
 @task(q=60, t=900, engine="sx", encoded=[pk._validate_return_to, pk._is_localhost, up.urlsplit.__wrapped__], bound=_DEEP_BOUND % "https", stubs=_DEEP_STUBS)
 def return_to_host_confusion_deep_https(budget: float, replay=None) -> dict:
     return _deep(budget, "https", replay)
+
+
+# --- (a2) percent-encoded delimiters as glue ----------------------------------------------------
+
+_PCT_TOKENS = ["%2F", "%2f", "%5C", "%5c", "%23", "%3F", "%3f", "%40", "%3A", "%3a", "%2E", "%25"]
+
+
+def _pct_url(a: dict, tok: str, x, y):  # noqa: ANN001
+    h1, h2 = _HOSTS[a["h1"]], _HOSTS[a["h2"]]
+    if a["pos"] == 0:
+        return a["scheme"] + "://" + h1 + x + tok + y + h2 + "/x"  # ... host1 [x] %XX [y] host2 /x
+    return a["scheme"] + "://" + tok + x + h1 + y + h2 + "/x"  # %XX [x] host1 [y] host2 /x
+
+
+def _replay_pct(args: dict) -> dict:
+    url = _pct_url(args, _PCT_TOKENS[args["tok"]], args["x"], args["y"])
+    try:
+        r = pk._validate_return_to(url, _ALLOWED)
+    except ValueError:
+        r = ""
+    ref = whatwg_http_origin(url)
+    if r and not _safe_host_level(ref):
+        where = "parse failure" if ref is FAIL else (_origin_text(ref) if ref[0] != "other" else f"a {ref[1]}: URL")
+        return {
+            "verdict": "VIOLATION", "replayed": True, "signature": "C37:return_to:percent-encoded-delimiter",
+            "detail": f"_validate_return_to({url!r}, {sorted(_ALLOWED)}) accepts and the flow redirects to this raw string, but a WHATWG browser (for which a percent-encoded delimiter is data) navigates to {where}; "
+            "the callback appends #token=…&client_secret=… to this URL",
+        }
+    return {"verdict": "INCONCLUSIVE", "detail": f"solver witness {url!r} did not reproduce on the real _validate_return_to"}
+
+
+@task(q=60, t=600, engine="sx", encoded=[pk._validate_return_to, pk._is_localhost, up.urlsplit.__wrapped__],
+      bound="scheme in {http,https}; evil host before/after an acceptable host; one percent-encoded delimiter %r (symbolic choice) between the hosts or leading the authority, "
+            "plus symbolic ASCII glue x,y with len(x)<=1, len(y)<=2, total<=%d" % (_PCT_TOKENS, pick(2, 3)),
+      stubs=["allowed_origins := linear-scan container", "urlsplit := urlsplit.__wrapped__ (lru_cache bypassed)", "urllib.parse.unquote := sx_unquote (char-array model of the same function, validated each run)"])
+def return_to_percent_encoded_delimiters(budget: float, replay=None) -> dict:
+    if replay is not None:
+        return _replay_pct(replay)
+    t0 = time.process_time()
+    pre = _preflight(40)
+    if pre:
+        return pre
+    ex = _sx.Explorer(budget - (time.process_time() - t0))
+    tot = pick(2, 3)
+    shapes = [(lx, ly) for lx in (0, 1) for ly in (0, 1, 2) if lx + ly <= tot]
+    roots = [(c, pos, sh) for c in _combos(_CONFUSION_PAIRS) for pos in (0, 1) for sh in shapes]
+    done = 0
+    for c, pos, (lx, ly) in roots:
+        a = dict(c, pos=pos)
+
+        def body():
+            tok = _sx.choice("tok", _PCT_TOKENS)
+            x, y = _sx.sym("x", lx, exclude=_EXCL), _sx.sym("y", ly, exclude=_EXCL)
+            url = _pct_url(a, tok, x, y)
+            r = _call_vrt(_vrt, url, _ALLOW_SCAN)
+            if not r:
+                return True, "rejected"
+            if not (r == url):
+                return False, "returned a different URL"
+            if _safe_host_level(whatwg_http_origin(url)):
+                return True, "accepted-safe"
+            if is_open("C37:return_to:percent-encoded-delimiter"):
+                return True, "known"
+            return False, "accepted-unsafe"
+
+        before = len(ex.cex)
+        ex.run(body, label=f"{c['scheme']}://pos{pos} {_HOSTS[c['h1']]} x{lx} %XX y{ly} {_HOSTS[c['h2']]}")
+        if len(ex.cex) > before:
+            m = ex.cex[-1]["model"]
+            ex.cex[-1]["args"] = dict(a, tok=int(m.get("tok", 0)), x=_sx.model_str(m, "x", lx), y=_sx.model_str(m, "y", ly))
+            break
+        if ex.timed_out:
+            break
+        done += 1
+    return _finish(ex, _result(ex, t0), done, len(roots), _replay_pct)
 
 
 # --- (b) return_to: the port is part of the origin --------------------------------------------
@@ -628,7 +723,7 @@ def original_url_same_origin(budget: float, replay=None) -> dict:
     if replay is not None:
         return _replay_orig(replay)
     t0 = time.process_time()
-    pre = _preflight(40)
+    pre = _preflight(40, "orig")
     if pre:
         return pre
     ex = _sx.Explorer(budget - (time.process_time() - t0))
